@@ -1116,4 +1116,5 @@ ASSUMPTIONS = [
     "the search samples histories; a clean batch is evidence, not proof",
 ]
 STUB_NOTE = ""
+STATE_MEASURE = 'canonical form of the reference model of every live object after the event'
 FAMILY_STARTS = [0]
